@@ -498,12 +498,15 @@ spif_cmp_t
 spif_mbuff_ncmp(spif_mbuff_t self, spif_mbuff_t other, spif_memidx_t cnt)
 {
     int c;
+    spif_memidx_t cnt1, cnt2;
 
     SPIF_OBJ_COMP_CHECK_NULL(self, other);
-    if (cnt > self->len || cnt > other->len) {
-        cnt = MIN(self->len, other->len);
+    cnt1 = MIN(self->len, cnt);
+    cnt2 = MIN(other->len, cnt);
+    c = memcmp(SPIF_MBUFF_BUFF(self), SPIF_MBUFF_BUFF(other), MIN(cnt1, cnt2));
+    if (c == 0) {
+        c = (cnt1 < cnt2) ? (-1) : ((cnt1 > cnt2) ? (1) : (0));
     }
-    c = memcmp(SPIF_MBUFF_BUFF(self), SPIF_MBUFF_BUFF(other), cnt);
     return SPIF_CMP_FROM_INT(c);
 }
 
